@@ -5,4 +5,4 @@ PROP = "C10"
 run, search, replay = make(PROP, ('C10:',),
                            "Oracle C10: after every accepted assignment the object must read as the intended value with exactly that element replaced, and no byte outside the object's extent may change.",
                            [],
-                           ['C10_set_leaf_at_path is the value-level statement for every nested path to a scalar element of every reference-free type (and C10_set_leaf_again its closure under sequences); assignment of a whole string is a byte-level theorem (C11_string_fit_*) plus read locality; assignment of a whole nested struct/array, paths through references, and interleaved buffer growth are tie + oracle', 'known finding O-30: a view obtained before an element was replaced as a whole (same size, other division) keeps stale cached offsets'])
+                           ['C10_set_leaf_at_path is the value-level statement for every nested path to a scalar element of every reference-free type (and C10_set_leaf_again its closure under sequences); assignment of a whole string is a byte-level theorem (C11_string_fit_*) plus read locality; assignment of a whole nested struct/array, paths through references, and interleaved buffer growth are tie + oracle', 'known finding O-30: a view obtained before an element was replaced as a whole (same size, other division) keeps stale cached offsets'], rg=True)
